@@ -221,6 +221,21 @@ func Main(h Harness) {
 					kind, what = "hang", fmt.Sprintf("no answer within %s", timeout)
 				}
 				if ci < 0 || h.CaseName == nil {
+					// Outside a case: while the batch was being prepared (schemas built, native values obtained by calling the
+					// library). If the crash is inside the module under test it is the library's failure all the same; if it is
+					// in the harness it is ours.
+					site := crashSite(o.Stderr)
+					if o.TimedOut {
+						site = hangSite(o.Stderr)
+					}
+					if strings.HasPrefix(site, "a cycle through schema.") || strings.HasPrefix(site, "a cycle through atp.") ||
+						strings.HasPrefix(site, "schema.") || strings.HasPrefix(site, "atp.") {
+						sig := kind + ": " + crashClass(what) + " in " + site
+						rep.Violate(sig, fmt.Sprintf("while preparing batch %s (before its first case)\n%s", string(t.Batch),
+							lib.FatalLine(stripProgress(o.Stderr))+"\n"+tailLines(stripProgress(o.Stderr), 25)), map[string]any{"batch": t.Batch})
+						capped = true
+						return
+					}
 					rep.InfraError(fmt.Sprintf("worker died (%s: %s) outside a case; batch %s", kind, what, string(t.Batch)))
 					return
 				}
